@@ -16,6 +16,10 @@ Inductive ccase :=
 (* CWLLoopConditionalStep fed tokens for which the condition evaluated to these booleans, then a termination token:
    tokens on the output port and on the skip port *)
 | CWhen (arr : list (tag * bool)) (outD outE : list atok)
+(* CWLLoopConditionalStep with several input ports fed the SAME tag sequence on every port (interleaved at will),
+   then termination tokens: it takes one token from each port per turn, so each output port and the skip port see what
+   the one-stream model says *)
+| CWhenK (arr : list (tag * bool)) (outDs : list (list atok)) (outE : list atok)
 (* LoopCombinatorStep with k input ports fed (port, token) in this order: per output port the tokens put on it, and
    whether run() returned *)
 | CCombK (k : nat) (arr : list (nat * atok)) (outs : list (list atok)) (fin : bool).
@@ -41,6 +45,11 @@ Definition check_case (c : ccase) : bool :=
       list_eqb (list_eqb atok_eqb)
                (map (fun j => map snd (filter (fun x => Nat.eqb (fst x) j) (kout s))) (seq 0 k)) outs
       && Bool.eqb (kdone s) fin
+  | CWhenK arr outDs outE =>
+      let toks := map (fun p => AT (fst p)) arr ++ [ATerm] in
+      let cont := fun t => existsb (fun p => tag_eqb (fst p) t && snd p) arr in
+      forallb (fun outD => list_eqb atok_eqb (flat_map (fun a => fst (w_out cont a)) toks) outD) outDs &&
+      list_eqb atok_eqb (flat_map (fun a => snd (w_out cont a)) toks) outE
   | CWhen arr outD outE =>
       let toks := map (fun p => AT (fst p)) arr ++ [ATerm] in
       let cont := fun t => existsb (fun p => tag_eqb (fst p) t && snd p) arr in
